@@ -8,6 +8,7 @@ Every theorem quantifies over ALL step sequences (`steps`), any number of instan
 configuration `cfg`; `run cfg (init n) steps` is the state after the sequence.
 -/
 import Mistral.Lemmas.SchedFinal
+import Mistral.Lemmas.SchedLive
 import Mistral.Gen.SchedDefaults
 
 namespace Mistral.Props.C13
@@ -281,5 +282,107 @@ theorem has_jobs_exact_partial (s : State) (i k : Nat)
 -- non-vacuity of the partial statement: a committed, pending in-memory job
 example : hasJobs (run { pickup := 1, timeout := 1, batch := none } (init 1) [.schedule 0 1 7 0, .commit 0]) 0 (some 7) (some false) = true
     ∧ pendingTruth (run { pickup := 1, timeout := 1, batch := none } (init 1) [.schedule 0 1 7 0, .commit 0]) 7 = true := by decide
+
+/-! ### "invoked at least once": eventual invocation under weak fairness, ANY interleaving
+
+Definitions (Lemmas/SchedLive.lean): `slack s j` = number of live instances whose store poll
+does not currently hold `j` (+1 while captured_at of row `j` is still NULL: the single
+in-memory dispatcher capture); `abandons cfg s steps` = number of `pollNext` steps in `steps`
+whose delete fails (`_process_store_jobs` raises out of its loop and drops the rest of its
+queue); `FairPass cfg j s p` = `p` starts with the `pollSelect` of a live idle instance at a
+moment when `j` is invoked or satisfies the WHERE clause of `get_scheduled_jobs_to_start`
+(execute_at + pickup_job_after and captured_at + captured_job_timeout have passed) and at the
+end of `p` that instance is alive with an idle poll again — steps of any other instance,
+crashes, ticks, schedules, dispatcher tasks may be interleaved anywhere inside `p`;
+`FairPasses cfg j k s steps` = `steps` contains `k` disjoint fair passes separated by
+arbitrary steps.  No batch limit (`cfg.batch = none`). -/
+
+/-- One pass.  From any state satisfying the safety invariant (every reachable state does:
+    `safe_reachable`): a complete store-poll pass of a live instance that starts when `j` is
+    ready either has `j` invoked at its end, or has used up one unit of slack (somebody else
+    won the CAS on `j` inside the pass: a dispatcher capture, or a poll of another live
+    instance that now holds `j`, or the winner died) — up to the abandoned loops inside the
+    pass.  Formalises "If the scheduler that captured a job dies, another instance runs it
+    after the capture timeout" for one attempt of that other instance, under arbitrary
+    interference. -/
+theorem pass_progress (cfg : Cfg) (hb : cfg.batch = none) (s : State) (j : Nat) (p : List Step)
+    (hs : Safe s) (hp : FairPass cfg j s p) :
+    Invoked (run cfg s p) j ∨ slack (run cfg s p) j + 1 ≤ slack s j + abandons cfg s p :=
+  pass_step cfg hb j s p hs hp
+
+/-- Eventual invocation.  "A job scheduled inside a transaction that commits is invoked at
+    least once … If the scheduler that captured a job dies, another instance runs it after
+    the capture timeout": for every reachable state (`pre` arbitrary) in which row `j` is
+    committed, and every continuation `rest` — arbitrary interleaving of all instances,
+    crashes, ticks, further schedules — that contains `k ≥ 1` fair passes (weak fairness: some
+    live instance keeps completing store polls that start after the job is due / its capture
+    has timed out), where `k` is at least the slack of the state plus the number of abandoned
+    poll loops in `rest`: the job is invoked. -/
+theorem eventual_invocation (cfg : Cfg) (hb : cfg.batch = none) (n : Nat) (pre rest : List Step)
+    (j : Nat) (r : Row)
+    (hr : (run cfg (init n) pre).rows[j]? = some r) (hv : r.vis = .committed)
+    (k : Nat) (hk : 1 ≤ k)
+    (hf : FairPasses cfg j k (run cfg (init n) pre) rest)
+    (hbound : slack (run cfg (init n) pre) j + abandons cfg (run cfg (init n) pre) rest ≤ k) :
+    ∃ t x, Ev.invoked j t x ∈ (run cfg (init n) (pre ++ rest)).trace := by
+  rw [run_append]
+  rcases fairPasses_bound cfg hb j hf (safe_reachable cfg n pre) ⟨r, hr, Or.inl hv⟩ with h | h | h
+  · exact h
+  · omega
+  · omega
+
+/-- The same with the state-independent bound: slack never exceeds the number of instances
+    plus one, so `n + 1 +` (abandoned poll loops in `rest`) fair passes are always enough. -/
+theorem eventual_invocation_instances (cfg : Cfg) (hb : cfg.batch = none) (n : Nat)
+    (pre rest : List Step) (j : Nat) (r : Row)
+    (hr : (run cfg (init n) pre).rows[j]? = some r) (hv : r.vis = .committed)
+    (k : Nat)
+    (hf : FairPasses cfg j k (run cfg (init n) pre) rest)
+    (hbound : n + 1 + abandons cfg (run cfg (init n) pre) rest ≤ k) :
+    ∃ t x, Ev.invoked j t x ∈ (run cfg (init n) (pre ++ rest)).trace := by
+  have h1 := slack_le (run cfg (init n) pre) j
+  rw [run_insts_length] at h1
+  exact eventual_invocation cfg hb n pre rest j r hr hv k (by omega) hf (by omega)
+
+-- non-vacuity 1: instance 0 captures job 0 through its dispatcher and dies; slack is then 1
+-- (one live instance, row captured); one fair pass of instance 1 after the timeout
+example : ∃ t x, Ev.invoked 0 t x ∈ (run { pickup := 2, timeout := 3, batch := none } (init 2)
+    ([.schedule 0 1 7 0, .commit 0, .tick 1, .pop 0, .task 0 0, .crash 0, .tick 4] ++
+     [.pollSelect 1, .pollCapture 1, .pollNext 1, .pollNext 1])).trace := by
+  refine eventual_invocation { pickup := 2, timeout := 3, batch := none } rfl 2 _ _ 0
+    { executeAt := 1, capturedAt := some 1, key := 7, vis := .committed } (by decide) rfl 1 (by decide) ?_ (by decide)
+  refine FairPasses.succ 0 _ [] [.pollSelect 1, .pollCapture 1, .pollNext 1, .pollNext 1] [] ?_
+    (FairPasses.zero _ _)
+  exact ⟨1, _, _, _, rfl, rfl, rfl, rfl, Or.inr ⟨_, rfl, by decide⟩, rfl, rfl, rfl⟩
+
+-- non-vacuity 2, a lost race: instances 1 and 2 both select, 2 captures and crashes, the
+-- capture of 1 fails (pass 1 complete, job not invoked); after the timeout 1 passes again
+-- and invokes; a third (no-op) pass meets the bound slack = 3 (two live instances + NULL
+-- captured_at)
+example : ∃ t x, Ev.invoked 0 t x ∈ (run { pickup := 2, timeout := 3, batch := none } (init 3)
+    ([.schedule 0 1 7 0, .commit 0, .crash 0, .tick 4] ++
+     [.pollSelect 1, .pollSelect 2, .pollCapture 2, .crash 2, .pollCapture 1, .tick 3,
+      .pollSelect 1, .pollCapture 1, .pollNext 1, .pollNext 1, .pollSelect 1, .pollCapture 1])).trace := by
+  refine eventual_invocation { pickup := 2, timeout := 3, batch := none } rfl 3 _ _ 0
+    { executeAt := 1, capturedAt := none, key := 7, vis := .committed } (by decide) rfl 3 (by decide) ?_ (by decide)
+  refine FairPasses.succ 2 _ [] [.pollSelect 1, .pollSelect 2, .pollCapture 2, .crash 2, .pollCapture 1]
+    [.tick 3, .pollSelect 1, .pollCapture 1, .pollNext 1, .pollNext 1, .pollSelect 1, .pollCapture 1] ?_ ?_
+  · exact ⟨1, _, _, _, rfl, rfl, rfl, rfl, Or.inr ⟨_, rfl, by decide⟩, rfl, rfl, rfl⟩
+  refine FairPasses.succ 1 _ [.tick 3] [.pollSelect 1, .pollCapture 1, .pollNext 1, .pollNext 1]
+    [.pollSelect 1, .pollCapture 1] ?_ ?_
+  · exact ⟨1, _, _, _, rfl, rfl, rfl, rfl, Or.inr ⟨_, rfl, by decide⟩, rfl, rfl, rfl⟩
+  refine FairPasses.succ 0 _ [] [.pollSelect 1, .pollCapture 1] [] ?_ (FairPasses.zero _ _)
+  exact ⟨1, _, _, _, rfl, rfl, rfl, rfl, Or.inl ⟨7, 1, by decide⟩, rfl, rfl, rfl⟩
+
+-- the first pass of non-vacuity 2 really is a lost race: nothing invoked at its end, and
+-- `pass_progress` accounts for it by slack 3 → 1
+example : (run { pickup := 2, timeout := 3, batch := none } (init 3)
+    [.schedule 0 1 7 0, .commit 0, .crash 0, .tick 4,
+     .pollSelect 1, .pollSelect 2, .pollCapture 2, .crash 2, .pollCapture 1]).trace = [.captured 0 4 2]
+    ∧ slack (run { pickup := 2, timeout := 3, batch := none } (init 3)
+        [.schedule 0 1 7 0, .commit 0, .crash 0, .tick 4]) 0 = 3
+    ∧ slack (run { pickup := 2, timeout := 3, batch := none } (init 3)
+        [.schedule 0 1 7 0, .commit 0, .crash 0, .tick 4,
+         .pollSelect 1, .pollSelect 2, .pollCapture 2, .crash 2, .pollCapture 1]) 0 = 1 := by decide
 
 end Mistral.Props.C13
